@@ -76,7 +76,7 @@ def gen_case(rng, cfg, idx):
             return {"kind": "dag", "prog": prog, "L": L}
         return None
     if r == 1:
-        c = C05.gen_case(rng, {"nstmts": cfg["nstmts"]}, idx)
+        c = C05.gen_case(rng, {"nstmts": cfg["nstmts"], "two_epoch": "random"}, idx)
         return None if c is None else {"kind": "hist", "prog": c["prog"], "L": c["L"]}
     fn = "gru" if idx % 48 == 32 else NOGRU[(idx // 3) % len(NOGRU)]   # gru (numba JIT) only on indices that land on one shard
     c = C02.gen_single(rng, fn)
@@ -191,7 +191,23 @@ def run_case(case):
         for b in range(a + 1, len(gn)):
             cnt["alias_pairs"] += 1
             if np.shares_memory(ga, grads[gn[b]]) and not np.shares_memory(tens[gn[a]].data, tens[gn[b]].data):
-                viol.append({"monitor": "M-alias", "mech": "grads-alias-unrelated-tensors", "msg": f"{gn[a]}.grad and {gn[b]}.grad share memory, the tensors do not"})
+                ta, tb2 = tens[gn[a]], tens[gn[b]]
+                def chain(t):
+                    # the tensor, its base, and the parents MyGrad would replay its view operations from
+                    out, seen = [t], 0
+                    if t.base is not None:
+                        out.append(t.base)
+                    while t.base is not None and t.creator is not None and seen < 50:
+                        t = t.creator.variables[0]
+                        out.append(t)
+                        seen += 1
+                    return {id(q) for q in out}
+                related = bool(chain(ta) & chain(tb2))
+                viol.append({"monitor": "M-alias", "mech": "grads-alias-unrelated-tensors",
+                             # mechanism probe for the known finding: MyGrad itself still relates the two as members of one view family (base
+                             # pointer / view-replay parents) although their memory was separated, and an earlier backward() (epoch boundary) precedes
+                             "stale_family": related and sum(1 for st in prog if st["k"] in ("backward", "clear")) >= 2,
+                             "msg": f"{gn[a]}.grad and {gn[b]}.grad share memory, the tensors do not"})
     if not viol:
         # dynamic variant
         for n in gn:
@@ -223,4 +239,6 @@ def run_case(case):
 
 def classify(v, case):
     m = v.get("mech") or v["monitor"]
+    if m == "grads-alias-unrelated-tensors" and v.get("stale_family"):
+        return "stale-view-keeps-base-across-epochs"
     return m
